@@ -1,5 +1,6 @@
 import VizierModel.Driver.SvcJson
 import VizierModel.Model.ServiceInv
+import VizierModel.Model.Crash
 open Lean VizierModel VizierModel.Svc VizierModel.Driver VizierModel.Driver.SvcJson
 
 /-- {"op":"run","cfg":{..},"reqs":[..],"snaps":bool} -> responses, final snapshot, optional per-step snapshots -/
@@ -82,10 +83,22 @@ def judge (j : Json) : Except String Json := do
     ownActive (st : Study) (client : String) : List Trial := st.trials.filter fun t => t.state == .active && t.client == client
     pool (st : Study) : List Trial := st.trials.filter (·.state == .requested)
 
+/-- {"op":"crash","cfg":..,"prefix":[reqs],"req":req} -> the states a restarted server may find -/
+def crash (j : Json) : Except String Json := do
+  let cfg := cfgOfJson ((j.getObjVal? "cfg").toOption.getD (Json.mkObj []))
+  let pre ← (← getArr j "prefix").toList.mapM reqOfJson
+  let rq ← reqOfJson (← j.getObjVal? "req")
+  let db := run cfg DB.empty pre
+  let states := crashStates cfg db rq
+  let (resp, after) := step cfg db rq
+  return Json.mkObj [("states", toJson (states.map jsonOfDB).toArray), ("before", jsonOfDB db),
+    ("after", jsonOfDB after), ("resp", jsonOfResp resp)]
+
 def handle (j : Json) : Except String Json := do
   match ← getStr j "op" with
   | "run" => runHistory j
   | "judge" => judge j
+  | "crash" => crash j
   | op => throw s!"unknown op {op}"
 
 def main : IO Unit := serve handle
